@@ -198,3 +198,32 @@ Print Assumptions C09_remote_plan_run_sound.
 Print Assumptions C09_remote_needs_resp_ok.
 Print Assumptions C09_remote_needs_covered.
 Print Assumptions C09_remote_exit_refuted.
+
+(* --------------------------------------------------------------------------------------------------
+   (S3, partial) the part of C09_remote_no_stuck that needs NO premise: once the doer process is gone - killed at any
+   moment, exited with 0 / 20 / 65, whatever was queued anywhere, any capacity - the boss side is never stuck: every
+   reachable state with the doer process ended is final or has a successor, so (with C09_remote_terminates) the boss
+   returns from Comms::shutdown.  Proof: Proofs/RemoteSessionComplete.v over the invariants of Proofs/RemoteSessionAInv.v.
+   MISSING for the full statement: the states in which the doer process still lives (all seven threads; this is where
+   resp_ok and covered are needed). *)
+From RJ Require Proofs.RemoteSessionAInv Proofs.RemoteSessionComplete.
+
+Theorem C09_remote_no_stuck_partial : forall c x s, RemoteSession.reach c x s ->
+  RemoteSession.dalive (RemoteSession.ev s) = false ->
+  RemoteSession.final s = true \/ exists s', RemoteSession.step c s s'.
+Proof. exact RemoteSessionComplete.no_stuck_doer_gone. Qed.
+
+(* non-trivial instance of the premise: the doer killed after two commands, the run ends with status 12 *)
+Example C09_remote_example_doer_gone : exists c x s,
+  RemoteSession.reach c x s /\ RemoteSession.dalive (RemoteSession.ev s) = false /\
+  RemoteSession.final s = true /\ RemoteSession.bexit (RemoteSession.bm s) = 12%N.
+Proof.
+  exists (RemoteSessionWitness.cfg 1000%N 0),
+    (RemoteSession.mkSc (RemoteSession.sc_ops RemoteSessionWitness.sc_small) [] false true false 0),
+    (RemoteSession.run_plan_to_end (RemoteSessionWitness.cfg 1000%N 0) RemoteSessionWitness.eager_boss
+       [(RemoteSession.TExec 2, RemoteSession.FKill)]
+       (RemoteSession.init (RemoteSession.mkSc (RemoteSession.sc_ops RemoteSessionWitness.sc_small) [] false true false 0))).
+  split; [apply RemoteSessionBase.run_plan_sound | vm_compute; repeat split].
+Qed.
+
+Print Assumptions C09_remote_no_stuck_partial.
